@@ -134,8 +134,15 @@ func generateAsyncInitialization(pkg string, injector *Injector, varPool *VarPoo
 		},
 	})
 
+	// The errgroup local takes its name from the pool (the package may declare eg, a type Eg gives a
+	// variable eg). The group's context is assigned to the context parameter itself, whatever the pool
+	// named it: no second, possibly unused, variable, and no fixed name that could capture an
+	// identifier of a copied provider expression.
+	injector.egName = varPool.GetName("eg")
+	injector.ctxName = ctxParamName
+
 	// Generate errgroup declaration
-	egDecl := generateErrGroupDeclaration(imp.Name, ctxParamName)
+	egDecl := generateErrGroupDeclaration(imp.Name, injector.egName, ctxParamName)
 	stmts = append(stmts, egDecl)
 
 	return stmts, nil
@@ -144,12 +151,12 @@ func generateAsyncInitialization(pkg string, injector *Injector, varPool *VarPoo
 // generateErrGroupDeclaration creates the errgroup variable declaration
 // errgroupName is the name under which the errgroup package is imported in the generated file
 // ctxParamName is the name of the context parameter (empty string if no context)
-func generateErrGroupDeclaration(errgroupName, ctxParamName string) *ast.AssignStmt {
+func generateErrGroupDeclaration(errgroupName, egName, ctxParamName string) *ast.AssignStmt {
 	if ctxParamName != "" {
 		return &ast.AssignStmt{
 			Lhs: []ast.Expr{
-				ast.NewIdent("eg"),
-				ast.NewIdent("ctx"),
+				ast.NewIdent(egName),
+				ast.NewIdent(ctxParamName),
 			},
 			Tok: token.DEFINE,
 			Rhs: []ast.Expr{
@@ -165,7 +172,7 @@ func generateErrGroupDeclaration(errgroupName, ctxParamName string) *ast.AssignS
 	}
 
 	return &ast.AssignStmt{
-		Lhs: []ast.Expr{ast.NewIdent("eg")},
+		Lhs: []ast.Expr{ast.NewIdent(egName)},
 		Tok: token.DEFINE,
 		Rhs: []ast.Expr{
 			&ast.UnaryExpr{
@@ -250,7 +257,7 @@ func generateAsyncWaitStatements(injector *Injector) []ast.Stmt {
 					Rhs: []ast.Expr{
 						&ast.CallExpr{
 							Fun: &ast.SelectorExpr{
-								X:   ast.NewIdent("eg"),
+								X:   ast.NewIdent(injector.errGroupName()),
 								Sel: ast.NewIdent("Wait"),
 							},
 						},
@@ -282,7 +289,7 @@ func generateAsyncWaitStatements(injector *Injector) []ast.Stmt {
 			Rhs: []ast.Expr{
 				&ast.CallExpr{
 					Fun: &ast.SelectorExpr{
-						X:   ast.NewIdent("eg"),
+						X:   ast.NewIdent(injector.errGroupName()),
 						Sel: ast.NewIdent("Wait"),
 					},
 				},
@@ -545,6 +552,8 @@ func (stmt *InjectorProviderCallStmt) channelsWait(channels []ast.Expr, injector
 		}
 	}
 
+	stmt.ctxName = injector.contextName()
+
 	if len(channels) == 1 {
 		// Single channel case
 		return stmt.buildWaitStatement(hasCtx, channels[0], returnErrStmts)
@@ -581,6 +590,11 @@ func (stmt *InjectorProviderCallStmt) buildWaitStatement(hasCtx bool, channel as
 		}
 	}
 
+	ctxName := stmt.ctxName
+	if ctxName == "" {
+		ctxName = "ctx"
+	}
+
 	return &ast.SelectStmt{
 		Body: &ast.BlockStmt{
 			List: []ast.Stmt{
@@ -599,7 +613,7 @@ func (stmt *InjectorProviderCallStmt) buildWaitStatement(hasCtx bool, channel as
 							Op: token.ARROW,
 							X: &ast.CallExpr{
 								Fun: &ast.SelectorExpr{
-									X:   ast.NewIdent("ctx"),
+									X:   ast.NewIdent(ctxName),
 									Sel: ast.NewIdent("Done"),
 								},
 							},
@@ -607,7 +621,7 @@ func (stmt *InjectorProviderCallStmt) buildWaitStatement(hasCtx bool, channel as
 					},
 					Body: returnErrStmts(&ast.CallExpr{
 						Fun: &ast.SelectorExpr{
-							X:   ast.NewIdent("ctx"),
+							X:   ast.NewIdent(ctxName),
 							Sel: ast.NewIdent("Err"),
 						},
 					}),
@@ -691,7 +705,7 @@ func (stmt *InjectorChainStmt) Stmt(varPool *VarPool, injector *Injector, _ func
 		&ast.ExprStmt{
 			X: &ast.CallExpr{
 				Fun: &ast.SelectorExpr{
-					X:   ast.NewIdent("eg"),
+					X:   ast.NewIdent(injector.errGroupName()),
 					Sel: ast.NewIdent("Go"),
 				},
 				Args: []ast.Expr{
